@@ -6,30 +6,43 @@
 (***************************************************************************)
 EXTENDS HpoLinkage, TLC, Json
 
-CONSTANT Vals
+CONSTANTS Vals,      \* distance values of the free matrices (arithmetic modes); 0 stands for Inf
+          Overlap    \* union mode: FALSE = singleton inputs with distinct weights, TRUE = every assignment of
+                     \* non-empty subsets of three weighted items (overlapping, nested, equal inputs)
 
-VARIABLES d0, w0
+VARIABLES d0, c0, w0
 
 Scale == 2 ^ N
+Singletons == [i \in 0..(N - 1) |-> {i}]
 (* union mode: the sets carry weights, the user distance is |W(A) - W(B)|; other modes: a free matrix *)
 Weights == [0..(N - 1) -> {1, 2, 4, 7, 12, 20}]
+Items3 == {0, 1, 2}
+W3 == [i \in Items3 |-> CASE i = 0 -> 1 [] i = 1 -> 2 [] OTHER -> 4]      \* every subset has its own weight
 Init == /\ IF Mode = "union"
-             THEN w0 \in {w \in Weights : \A i, j \in 0..(N - 1) : i < j => w[i] # w[j]}
-                  /\ d0 = [p \in Pairs(0..(N - 1)) |-> Abs(w0[p[1]] - w0[p[2]])]
-             ELSE w0 = [i \in 0..(N - 1) |-> 0] /\ d0 \in [Pairs(0..(N - 1)) -> {v * Scale : v \in Vals}]
-        /\ LInit(d0, w0)
-Next == Merge /\ UNCHANGED <<d0, w0>>
-Spec == Init /\ [][Next]_<<lvars, d0, w0>>
+             THEN IF Overlap
+                    THEN /\ w0 = W3
+                         /\ c0 \in [0..(N - 1) -> (SUBSET Items3) \ {{}}]
+                    ELSE /\ w0 \in {w \in Weights : \A i, j \in 0..(N - 1) : i < j => w[i] # w[j]}
+                         /\ c0 = Singletons
+             ELSE w0 = [i \in 0..(N - 1) |-> 0] /\ c0 = Singletons
+        /\ IF Mode = "union"
+             THEN d0 = [p \in Pairs(0..(N - 1)) |-> UserDist(w0, c0[p[1]], c0[p[2]])]
+             ELSE d0 \in [Pairs(0..(N - 1)) -> {IF v = 0 THEN Inf ELSE v * Scale : v \in Vals}]
+        /\ LInit(d0, c0, w0)
+Next == Merge /\ UNCHANGED <<d0, c0, w0>>
+Spec == Init /\ [][Next]_<<lvars, d0, c0, w0>>
 
 PairSeq == SetToSortSeq(Pairs(0..(N - 1)), LAMBDA p, q : p[1] < q[1] \/ (p[1] = q[1] /\ p[2] < q[2]))
 
 Emit == (merges = <<>>) =>
   PrintT(<<"REPLAY", ToJson([ n |-> N, mode |-> Mode, scale |-> Scale,
                               d0 |-> [i \in 1..Len(PairSeq) |-> d0[PairSeq[i]]],
-                              w |-> [i \in 1..N |-> w0[i - 1]],
-                              allowed |-> LET D == Dendrograms(active, dist, nxt, merges, wt) DS == SetToSeq(D) IN
+                              inf |-> Inf,
+                              sets |-> [i \in 1..N |-> SetToSortSeq(c0[i - 1], <)],
+                              iw |-> [i \in 1..Cardinality(DOMAIN w0) |-> w0[i - 1]],
+                              allowed |-> LET D == Dendrograms(active, dist, nxt, merges, cset, iw) DS == SetToSeq(D) IN
                                           [i \in 1..Len(DS) |-> [merges |-> DS[i], indices |-> Indices(DS[i], 1)]] ])>>)
 
 (* the machine only ever produces allowed dendrograms *)
-MachineInSet == Done => merges \in Dendrograms(0..(N - 1), d0, N, <<>>, w0)
+MachineInSet == Done => merges \in Dendrograms(0..(N - 1), d0, N, <<>>, c0, w0)
 =============================================================================
